@@ -27,6 +27,9 @@ class _FileProxy:
         self._h.op("write", self._p); return self._f.write(s)
     def readlines(self):
         self._h.op("readlines", self._p); return self._f.readlines()
+    def __iter__(self):
+        # a reader that streams the lines instead of calling readlines(): the same fault point
+        self._h.op("readlines", self._p); return iter(self._f)
     def __enter__(self): return self
     def __exit__(self, *a):
         try:
